@@ -150,7 +150,20 @@ func (p *proxyConn) handleMITM(req *http.Request) error {
 	// Successful CONNECT response does not invoke trace.
 	p.traceWroteResponse(res, nil)
 
+	// The wait for the first byte of the client's handshake is part of the
+	// handshake: without a deadline a client that sends nothing after the 200
+	// would never be disconnected.
+	if p.MITMTLSHandshakeTimeout > 0 {
+		if deadlineErr := p.conn.SetReadDeadline(time.Now().Add(p.MITMTLSHandshakeTimeout)); deadlineErr != nil {
+			log.Error(ctx, "can't set MITM handshake deadline", "error", deadlineErr)
+		}
+	}
 	b, err := p.brw.Peek(1)
+	if p.MITMTLSHandshakeTimeout > 0 {
+		if deadlineErr := p.conn.SetReadDeadline(time.Time{}); deadlineErr != nil {
+			log.Error(ctx, "can't clear MITM handshake deadline", "error", deadlineErr)
+		}
+	}
 	if err != nil {
 		if isClosedConnError(err) {
 			log.Debug(ctx, "mitm: connection closed prematurely", "error", err)
